@@ -47,9 +47,63 @@ def _blocks_of(st: ast.AST):
     return out
 
 
-def path_conditions(fn: ast.AST, stmt: ast.AST, stop_at: ast.AST | None = None):
+def canon_cond(e: ast.AST, pol: bool) -> list[tuple[ast.AST, bool]]:
+    """Canonical form of one branch condition: a list of (atom, polarity) whose conjunction is the condition.
+    `not x` -> x with flipped polarity; `a is not b`/`a != b`/`a not in b` -> positive comparison, flipped;
+    `len(x) > 0`, `len(x) != 0`, `len(x) >= 1`, `bool(x)` -> x; `len(x) == 0`, `len(x) < 1` -> x flipped;
+    a conjunction that holds / a disjunction that fails is split into its members."""
+    while True:
+        if isinstance(e, ast.UnaryOp) and isinstance(e.op, ast.Not):
+            e, pol = e.operand, not pol
+            continue
+        if isinstance(e, ast.Call) and isinstance(e.func, ast.Name) and e.func.id == "bool" and len(e.args) == 1 and not e.keywords:
+            e = e.args[0]
+            continue
+        break
+    if isinstance(e, ast.BoolOp) and ((isinstance(e.op, ast.And) and pol) or (isinstance(e.op, ast.Or) and not pol)):
+        out = []
+        for v in e.values:
+            out += canon_cond(v, pol)
+        return out
+    if isinstance(e, ast.Compare) and len(e.ops) == 1:
+        op, l, r = e.ops[0], e.left, e.comparators[0]
+        flip = {ast.IsNot: ast.Is, ast.NotEq: ast.Eq, ast.NotIn: ast.In}
+        if type(op) in flip:
+            ne = ast.copy_location(ast.Compare(left=l, ops=[flip[type(op)]()], comparators=[r]), e)
+            return canon_cond(ne, not pol)
+        def is_len(x):
+            return isinstance(x, ast.Call) and isinstance(x.func, ast.Name) and x.func.id == "len" and len(x.args) == 1
+        def num(x):
+            return x.value if isinstance(x, ast.Constant) and isinstance(x.value, int) and not isinstance(x.value, bool) else None
+        if is_len(l) and num(r) is not None:
+            k = num(r)
+            if (isinstance(op, ast.Gt) and k == 0) or (isinstance(op, ast.GtE) and k == 1):
+                return canon_cond(l.args[0], pol)
+            if (isinstance(op, ast.Eq) and k == 0) or (isinstance(op, ast.Lt) and k == 1) or (isinstance(op, ast.LtE) and k == 0):
+                return canon_cond(l.args[0], not pol)
+        if is_len(r) and num(l) == 0 and isinstance(op, ast.Lt):
+            return canon_cond(r.args[0], pol)
+    return [(e, pol)]
+
+
+def path_conditions(fn: ast.AST, stmt: ast.AST, stop_at: ast.AST | None = None, raw: bool = False):
     """-> list of (kind, expr_or_node, polarity).  kind in {'if','while','exc','loop'}.
-    ``stop_at``: only conditions inside this enclosing statement (e.g. a loop) are returned."""
+    ``stop_at``: only conditions inside this enclosing statement (e.g. a loop) are returned.
+    Unless ``raw``, 'if'/'while' conditions are canonicalised (see canon_cond): several syntactic forms of one test give
+    the same (expression, polarity) pairs."""
+    cs = _path_conditions_raw(fn, stmt, stop_at)
+    if raw:
+        return cs
+    out = []
+    for kind, e, pol in cs:
+        if kind in ("if", "while") and isinstance(e, ast.AST):
+            out += [(kind, a, p) for a, p in canon_cond(e, pol)]
+        else:
+            out.append((kind, e, pol))
+    return out
+
+
+def _path_conditions_raw(fn: ast.AST, stmt: ast.AST, stop_at: ast.AST | None = None):
     pm = parent_map(fn)
     conds = []
     cur = stmt
